@@ -188,6 +188,7 @@ func detectPkgName(dir string) string {
 
 func newResult(it Item) *ItemResult {
 	return &ItemResult{ID: it.ID, Entry: it.Entry, Params: it.Params, SParams: it.SParams, Shard: it.Shard, Outcomes: map[string]int{},
+		Violations: []Violation{}, Witnesses: []Witness{}, Functions: []string{},
 		Reach: map[string]int{}, BoundCuts: map[string]int{}, KnownCut: map[string]int{}, Inconclusive: map[string]int{}, Stubs: map[string]int{}}
 }
 
